@@ -105,7 +105,9 @@ func (ym YamlMap) GetValue(key string) *YamlNode {
 func (ym *YamlMap) setValue(item *YamlKeyValue) {
 	for i := range ym.Items {
 		if ym.Items[i].Key.Value == item.Key.Value {
-			ym.Items[i].Value = item.Value
+			// Items can be shared with other maps (MergeMaps makes a shallow copy),
+			// so replace the entry instead of modifying it in place.
+			ym.Items[i] = &YamlKeyValue{Key: ym.Items[i].Key, Value: item.Value}
 			return
 		}
 	}
